@@ -14,6 +14,7 @@ import (
 	"encoding/hex"
 	"fmt"
 	"io"
+	"os"
 	"sort"
 	"sync"
 	"sync/atomic"
@@ -211,6 +212,7 @@ func (w *world) emit(id int, ev common.Ev) {
 
 func (w *world) emitLocked(ev common.Ev) {
 	w.events++
+	progress.Add(1)
 	if w.tr == nil {
 		return
 	}
@@ -776,8 +778,10 @@ func (w *world) start(o *opCtl) {
 // quiescent snapshot.
 func (w *world) settle() {
 	synctest.Wait()
+	progress.Add(1)
 	w.setCurrent(0)
 	synctest.Wait()
+	progress.Add(1)
 	w.reap()
 	w.quiesce()
 }
@@ -903,6 +907,45 @@ func (w *world) injectReadFault(f int) {
 	w.files[f].pf.failReads = 1
 	w.emitLocked(common.Ev{"ev": "fault", "f": fname(f)})
 	w.mu.Unlock()
+}
+
+// Watchdog. A call that spins inside the real code (or blocks on a mutex)
+// never lets the bubble become quiescent, and cannot be interrupted. A
+// goroutine outside the bubble (real time) notices that nothing was logged
+// and no step finished for a long time, appends a "hang" event, flushes
+// the trace and ends the process with exit code 3; the check then lets
+// the trace specification decide what the hang means.
+var progress atomic.Int64
+
+const hangExitCode = 3
+
+func startWatchdog(tr *common.Trace) (stop func()) {
+	limit := time.Duration(common.EnvInt("VERIF_C16_HANG_SECS", 240)) * time.Second
+	done := make(chan struct{})
+	go func() {
+		last := progress.Load()
+		lastChange := time.Now()
+		tick := time.NewTicker(time.Second)
+		defer tick.Stop()
+		for {
+			select {
+			case <-done:
+				return
+			case <-tick.C:
+				if cur := progress.Load(); cur != last {
+					last, lastChange = cur, time.Now()
+				} else if time.Since(lastChange) > limit {
+					if tr != nil {
+						tr.Emit(common.Ev{"ev": "hang", "secs": int(limit / time.Second), "cl": []int{0, 0}, "uac": 0})
+						tr.Close()
+					}
+					fmt.Fprintln(os.Stderr, "verif: the step did not become quiescent; see the hang event")
+					os.Exit(hangExitCode)
+				}
+			}
+		}
+	}()
+	return func() { close(done) }
 }
 
 // runTrace runs body inside a fresh bubble and world, followed by the
